@@ -85,7 +85,7 @@ def tlc(tla, cfg, workdir, workers=1, env=None, timeout=1800, extra=(), heap="4g
     if dfs:
         props.append("-Dtlc2.tool.queue.IStateQueue=StateDeque")
     cmd = ["java", "-XX:+UseParallelGC", "-Xss512m", "-Xmx" + heap] + props + ["-cp", JAR, "tlc2.TLC",
-           "-workers", str(workers), "-metadir", md, "-config", cfg] + list(extra) + [tla]
+           "-workers", str(workers), "-noGenerateSpecTE", "-metadir", md, "-config", cfg] + list(extra) + [tla]
     e = dict(os.environ)
     e.pop("JAVA_TOOL_OPTIONS", None)
     if env:
